@@ -778,9 +778,13 @@ func c11NumericGrid(w *mon.W) {
 	for _, f := range floats {
 		nums = append(nums, ref.Float(f))
 	}
+	// as data only: non-finite floats and integers above MaxInt64 (CBOR can carry them)
+	datas := append(append([]ref.V{}, nums...), ref.Float(math.NaN()), ref.Float(math.Inf(1)), ref.Float(math.Inf(-1)), ref.Uint(1<<63), ref.Uint(1<<63+1), ref.Uint(math.MaxUint64))
 	sel := ref.Sel{{Kind: ref.SField, Name: "n"}}
 	idx := 0
-	for _, lit := range nums {
+	// literals: the same numbers plus integers above MaxInt64 (constructors only)
+	lits := append(append([]ref.V{}, nums...), ref.Uint(1<<63), ref.Uint(math.MaxUint64))
+	for _, lit := range lits {
 		for _, kind := range ref.CmpKinds {
 			idx++
 			if !w.Mine(idx) {
@@ -801,11 +805,14 @@ func c11NumericGrid(w *mon.W) {
 				if intsInRange(lit) {
 					viaIPLD, _ = gen.BuildPolicyIPLD(p)
 				}
-				for _, x := range nums {
+				for _, x := range datas {
 					d := ref.Map(ref.E("n", x))
 					t, _ := ref.EvalPolicy(p, d)
 					if t == ref.Unresolved {
 						continue
+					}
+					if x.K == ref.KUint || (x.K == ref.KFloat && (math.IsNaN(x.F) || math.IsInf(x.F, 0))) {
+						w.Cover("grid/nan-inf-uint-data")
 					}
 					want := t == ref.True
 					for vi, pol := range []policy.Policy{cons, viaIPLD} {
